@@ -19,8 +19,10 @@ def one_case(ctx, job, variant, lines, k, via_json):
         e.exec(c)
     full = list(e.operation_logs())
     a, b = ec.norm_logs(full), ec.norm_logs(resumed)
-    finding = None
-    if a != b:
+    finding = checkpoint_transport_fixpoint(full, job, variant, lines)
+    if finding:
+        pass
+    elif a != b:
         d = ec.first_log_diff(a, b)
         finding = {"job": job, "variant": variant, "plan": lines, "cut": k, "via_json": via_json,
                    "first_differing_log": d[0], "differing_fields": d[1]}
@@ -28,6 +30,26 @@ def one_case(ctx, job, variant, lines, k, via_json):
         finding = {"job": job, "variant": variant, "plan": lines, "cut": k, "via_json": via_json,
                    "what": "hashes differ although the logs are equal"}
     return txt, finding, {"plays": rec.plays, "conflicts": rec.conflicts}
+
+
+def checkpoint_transport_fixpoint(logs, job, variant, lines):
+    """The hypothesis restore(save s) = s of the C01 theorems, for the JSON transport of recorded logs: the store a checkpoint
+    restores after model_dump_json / model_validate_json must hold, value for value, what the in-memory checkpoint holds (compared
+    on the live objects, NOT on two serialisations, which would hide a lossy serialiser on both sides)."""
+    from simaple.simulate.policy.base import OperationLog
+    for i, l in enumerate(logs):
+        back = OperationLog.model_validate_json(l.model_dump_json())
+        for j, (p, q) in enumerate(zip(l.playlogs, back.playlogs)):
+            x, y = h_engine.norm(p.checkpoint.restore().save()), h_engine.norm(q.checkpoint.restore().save())
+            if x != y:
+                keys = [k for k in x if x.get(k) != y.get(k)][:3]
+                return {"job": job, "variant": variant, "plan": lines, "what": "a recorded checkpoint does not survive the JSON transport of its log: "
+                        "the restored store differs from the recorded one", "log": i, "playlog": j,
+                        "entities": {k: {"recorded": x.get(k), "after_json": y.get(k)} for k in keys}}
+            if h_engine.norm(p.events) != h_engine.norm(q.events) or h_engine.norm(p.action) != h_engine.norm(q.action) or float(p.clock) != float(q.clock):
+                return {"job": job, "variant": variant, "plan": lines, "what": "a recorded play log does not survive the JSON transport "
+                        "(action, events or clock differ)", "log": i, "playlog": j}
+    return None
 
 
 def sweep_plan(job, variant, chunk):
